@@ -156,6 +156,29 @@ def asset_term(a, spec, G='G'):
             C.q(float(a.get('eff_in', 1.0))), C.q(float(a.get('inflow', 0.0))), price_term(a.get('price'), spec),
             C.b(a.get('no_simult_in_out', False)), 'None' if md is None else '(Some %s)' % C.q(float(md)))
         return '(build_storage %s %s %s %s)' % (G, rg, sp, per)
+    if k in ('Plant', 'CHPAsset'):
+        import math
+        chp = k == 'CHPAsset'
+        nodes = a['nodes']
+        heat = nodes[1] if chp else None
+        fuel = nodes[-1] if len(nodes) > (2 if chp else 1) else None
+        cp = '(Build_contract_p %s %s %s %s %s %s)' % (
+            C.s(a['name']), C.s(nodes[0]), price_term(a.get('price'), spec),
+            param_term(a.get('min_cap', 0.0), spec, g), param_term(a.get('max_cap', 0.0), spec, g),
+            param_term(a.get('extra_costs', 0.0), spec, g))
+        step_units = freq_td_(g['freq']) / freq_td_(g.get('unit', 'h'))
+        st = lambda v: C.nat(int(math.ceil((v or 0) / step_units - 1e-12)))
+        opt_s = lambda v: 'None' if v is None else '(Some %s)' % C.s(v)
+        pp = '(Build_plant_p %s %s %s %s %s %s %s %s %s %s %s %s %s %s %s %s)' % (
+            opt_s(heat), opt_s(fuel), 'None' if a.get('ramp') is None else '(Some %s)' % C.q(float(a['ramp'])), C.q(float(a.get('last_dispatch', 0.0))),
+            param_term(a.get('start_costs', 0.0), spec, g), param_term(a.get('running_costs', 0.0), spec, g),
+            st(a.get('min_runtime', 0)), st(a.get('time_already_running', 0)), st(a.get('min_downtime', 0)), st(a.get('time_already_off', 0)),
+            C.b(not (isinstance(a.get('min_cap', 0.0), (int, float)) and a.get('min_cap', 0.0) == 0)),
+            param_term(a.get('conversion_factor_power_heat', 1.0), spec, g),
+            'None' if a.get('max_share_heat') is None else '(Some %s)' % param_term(a['max_share_heat'], spec, g),
+            param_term(a.get('start_fuel', 0.0), spec, g), param_term(a.get('fuel_efficiency', 1.0), spec, g),
+            param_term(a.get('consumption_if_on', 0.0), spec, g))
+        return '(build_plant %s %s %s %s %s %s)' % (G, rg, cp, takes_term(a.get('max_take'), g), takes_term(a.get('min_take'), g), pp)
     if k == 'OrderBook':
         tz = g.get('tz')
         o = a['orders']
